@@ -8,6 +8,7 @@ import re
 import resource
 import shutil
 import subprocess
+import threading
 import time
 
 from . import vunit
@@ -51,13 +52,30 @@ def _limits(mem_gb):
     return f
 
 
+def _watchdog(pgid, mem_gb, stop):
+    """Kill any cbmc process of this run (same session) whose RSS exceeds the cap: an address-space
+    rlimit on cargo-kani itself makes its thread pool panic, so the cap is enforced from outside."""
+    while not stop.wait(2.0):
+        try:
+            out = subprocess.run(["ps", "-eo", "pid,sid,rss,comm"], capture_output=True, text=True).stdout
+        except Exception:
+            continue
+        for ln in out.split("\n")[1:]:
+            f = ln.split()
+            if len(f) >= 4 and f[1] == str(pgid) and f[3].startswith("cbmc") and int(f[2]) > mem_gb * 1024 * 1024:
+                try:
+                    os.kill(int(f[0]), 9)
+                except OSError:
+                    pass
+
+
 def run_crate(crate, harnesses, tier, jobs=4):
     """harnesses: list of dicts (name, bounded, bound, timeout, args). Returns list of results."""
     d = prepare(crate)
     names = [h["harness"] for h in harnesses]
     timeout = sum(h.get("timeout", 300) for h in harnesses) / max(1, min(jobs, len(harnesses))) + 600
     cmd = ["cargo", "kani", "-Z", "function-contracts", "-Z", "stubbing", "-Z", "unstable-options",
-           "--output-format=terse", "-j", str(jobs)]
+           "--output-format=terse", "-j", str(jobs), "--exact"]
     extra = []
     for h in harnesses:
         cmd += ["--harness", h["harness"]]
@@ -71,11 +89,16 @@ def run_crate(crate, harnesses, tier, jobs=4):
     mem = max(h.get("mem_gb", 12) for h in harnesses)
     try:
         p = subprocess.Popen(cmd, cwd=d, env=env, stdout=subprocess.PIPE, stderr=subprocess.STDOUT, text=True,
-                             preexec_fn=_limits(mem))
+                             preexec_fn=os.setsid)
+        stop = threading.Event()
+        wd = threading.Thread(target=_watchdog, args=(p.pid, mem, stop), daemon=True)
+        wd.start()
         try:
             out, _ = p.communicate(timeout=timeout)
             timed_out = False
+            stop.set()
         except subprocess.TimeoutExpired:
+            stop.set()
             os.killpg(p.pid, 9)
             out, _ = p.communicate()
             timed_out = True
@@ -85,9 +108,9 @@ def run_crate(crate, harnesses, tier, jobs=4):
     res = []
     sections = split_sections(out)
     for h in harnesses:
-        name = h["harness"]
+        name = h["harness"].split("::")[-1]
         sec = sections.get(name)
-        r = {"name": f"{crate}::{name}", "cmd": " ".join(cmd), "bounded": bool(h.get("bounded")), "bound": h.get("bound", ""),
+        r = {"name": f"{crate}::{h['harness']}", "cmd": " ".join(cmd), "bounded": bool(h.get("bounded")), "bound": h.get("bound", ""),
              "time_s": None, "status": "undecided", "reason": "", "output": ""}
         if sec is None:
             r["reason"] = "harness produced no verdict (" + ("timeout" if timed_out else "compile error or crash") + ")"
@@ -157,10 +180,9 @@ def split_sections(out):
 
 def playback(crate, d, h, env):
     cmd = ["cargo", "kani", "-Z", "function-contracts", "-Z", "stubbing", "-Z", "concrete-playback",
-           "--concrete-playback=print", "--harness", h["harness"]] + h.get("args", [])
+           "--concrete-playback=print", "--exact", "--harness", h["harness"]] + h.get("args", [])
     try:
-        p = subprocess.run(cmd, cwd=d, env=env, capture_output=True, text=True, timeout=h.get("timeout", 300) + 300,
-                           preexec_fn=_limits(h.get("mem_gb", 12)))
+        p = subprocess.run(cmd, cwd=d, env=env, capture_output=True, text=True, timeout=h.get("timeout", 300) + 300)
     except subprocess.TimeoutExpired:
         return None
     m = re.search(r"```\n(.*?)```", p.stdout, re.S)
